@@ -270,6 +270,9 @@ def eval_one(ctx: Ctx, c: dict):
     else:
         c2 = c
     ctx.corr(f"c03.render {ms} {int(pt)} {msg_tokens(c2)}", line, c)
+    longest = max([len(bytes.fromhex(rd["b"])) for s_ in c["sections"] for r_ in s_ for rd in r_["rdatas"] if rd["k"] == "o"] + [0])
+    if longest > 65535 and w is not None:
+        fail(ctx, "C08/to_wire/rdlength-overflow", f"an RDATA of {longest} octets was rendered ({len(w)} octets) instead of raising: RDLENGTH is 16 bits", c)
     if w is None:
         if line == "err ValueError":
             fail(ctx, "C08/to_wire/raises/ValueError/reserve-exceeds-limit", f"to_wire(max_size={ms}, prefer_truncation={pt}) raised ValueError (OPT/TSIG reserve larger than the limit) instead of TooBig", c)
@@ -302,8 +305,29 @@ def eval_robj(ctx: Ctx, c: dict):
     dns.renderer.time = types.SimpleNamespace(time=lambda: float(C03.FIXED_TIME))
     m, key = mk_message(c)
     ms, pad, osz, tsz, hm, multi, res = c["max_size"], c["pad"], c["opt_size"], c["tsig_size"], c["hdr"], c["multi"], c["reserve"]
-    line_in = f"c08.robj {ms} {int(res)} {pad} {osz} {tsz} {hm} {model_tokens(c, pad=0)}"
+    xf = c.get("xf", 0)
+    line_in = f"c08.robj {ms} {int(res)} {pad} {osz} {tsz} {hm} {xf} {model_tokens(c, pad=0)}"
     r = dns.renderer.Renderer(m.id, int(m.flags), ms, m.origin)
+    tr = []
+    if xf & 1:
+        before = (r.max_size, r.reserved)
+        try:
+            r.reserve(ms + 1 + osz)
+            tr.append("res:ok")
+        except ValueError:
+            tr.append("res:err:ValueError")
+            if (r.max_size, r.reserved) != before:
+                fail(ctx, "C08/renderer/reserve/state-after-error", f"a reserve() that raised ValueError changed (max_size, reserved) from {before} to {(r.max_size, r.reserved)}", c)
+    if xf & 8:
+        before = (r.max_size, r.reserved)
+        try:
+            r.reserve(-1 - (xf >> 4))
+            fail(ctx, "C08/renderer/reserve/negative-accepted", f"reserve({-1 - (xf >> 4)}) did not raise ValueError", c)
+        except ValueError:
+            pass
+        if (r.max_size, r.reserved) != before:
+            fail(ctx, "C08/renderer/reserve/state-after-error", f"reserve(negative) changed (max_size, reserved) from {before} to {(r.max_size, r.reserved)}", c)
+            r.max_size, r.reserved = before
     if res:
         try:
             r.reserve(osz)
@@ -312,10 +336,13 @@ def eval_robj(ctx: Ctx, c: dict):
             ctx.corr(line_in, "err ValueError", c)
             ctx.count("robj.reserve-ValueError")
             return
-    tr = []
     kept = [[], [], [], []]
+    stop = False
     for sec in range(4):
         for i, rr in enumerate(m.sections[sec]):
+            if stop:
+                break
+            snap_add = (r.output.getvalue(), dict(r.compress), list(r.counts))
             try:
                 if sec == 0:
                     r.add_question(rr.name, rr.rdtype, rr.rdclass)
@@ -325,8 +352,41 @@ def eval_robj(ctx: Ctx, c: dict):
                 kept[sec].append(c["sections"][sec][i])
             except dns.exception.TooBig:
                 tr.append(f"big:{r.output.tell()}:{len(r.compress)}")
+            except dns.name.NeedAbsoluteNameOrOrigin:
+                # an exception other than TooBig: the add must leave no trace either (whole record sets only, consistent counts)
+                tr.append("err:NeedAbsoluteNameOrOrigin")
+                ctx.count("robj.need-absolute")
+                now = (r.output.getvalue(), dict(r.compress), list(r.counts))
+                if now != snap_add:
+                    fail(ctx, "C08/renderer/partial-record-after-exception",
+                         f"add_rrset raised NeedAbsoluteNameOrOrigin (relative name inside RDATA, no origin) and left {len(now[0]) - len(snap_add[0])} octets of the "
+                         f"record and {len(now[1]) - len(snap_add[1])} compression entries behind: a caller that carries on renders a malformed message", c)
+                    return
+                stop = True
+        if stop:
+            break
+    if xf & 4 and m.sections[1] and r.section > 1:
+        snap = (r.output.getvalue(), dict(r.compress), list(r.counts), r.section)
+        try:
+            r.add_rrset(1, m.sections[1][0], want_shuffle=False)
+            tr.append(f"ooo:ok:{r.output.tell()}")
+            if snap[3] > 1:
+                fail(ctx, "C08/renderer/section-order", f"add_rrset(ANSWER) after section {snap[3]} did not raise FormError", c)
+            else:
+                kept[1].append(c["sections"][1][0])
+        except dns.exception.TooBig:
+            tr.append(f"ooo:big:{r.output.tell()}")
+        except dns.exception.FormError:
+            tr.append("ooo:err:FormError")
+            if (r.output.getvalue(), dict(r.compress), list(r.counts), r.section) != snap:
+                fail(ctx, "C08/renderer/section-order/state-after-error", "an out-of-order add changed buffer, table, counts or section", c)
     if res:
         r.release_reserved()
+    if xf & 2:
+        before = r.max_size
+        r.release_reserved()
+        if r.max_size != before or r.reserved != 0:
+            fail(ctx, "C08/renderer/release-twice", f"a second release_reserved() moved max_size from {before} to {r.max_size} (reserved={r.reserved})", c)
     opt_ok = tsig_ok = False
     if m.opt is not None:
         try:
@@ -700,6 +760,10 @@ def gen_robj(rng):
         osz += rng.below(5)
         tsz = rng.choice([0, tsz + 1, max(0, tsz - 3), tsz])
     total = pos + osz + tsz + (((-(pos + osz + tsz)) % pad) if pad and c["opt"] is not None else 0)
+    if not use_origin and rng.chance(1, 40):
+        # an exception other than TooBig in the middle of a record: a relative name inside the RDATA and no origin
+        sections[rng.choice([1, 2, 3])].insert(0, rr(nm(b"ok"), 2, [{"k": "n", "n": nm(b"ns1")}, {"k": "n", "n": hexl([b"relative-target"])}][rng.below(2):]))
+    c["xf"] = (rng.below(8) if rng.chance(1, 2) else 0) | (8 | (rng.below(3) << 4) if rng.chance(1, 8) else 0)
     c.update(pad=pad, opt_size=osz, tsig_size=tsz, hdr=rng.below(3) if c["tsig"] is None else rng.choice([0, 2]),  # the header must be written before signing
              multi=rng.chance(1, 3), reserve=rng.chance(1, 2),
              max_size=65535 if rng.chance(5, 6) else max(12, total + rng.range(-24, 3)))
@@ -724,6 +788,23 @@ def generate(ctx: Ctx, scale: int, rng):
             ctx.count("gen.rejected")
             continue
         c["limits"] = lims
+        run_one(ctx, c)
+    # every limit around the message size with padding switched on (the OPT reserve must include the PADDING option header)
+    for i in range(n(3)):
+        c = gen_sized(rng, rng.choice([520, 560, 640]), want_opt=True, want_tsig=rng.chance(1, 2))
+        if c is None:
+            ctx.count("gen.rejected")
+            continue
+        c["kind"] = "sweep"
+        c["pad"] = rng.choice([1, 1, 2, 3, 8, 16, 31])
+        run_one(ctx, c)
+    # an RDATA longer than RDLENGTH can express
+    for i in range(n(2)):
+        nb = rng.choice([65535, 65536, 65536 + rng.below(5000)])
+        c = {"kind": "one", "id": rng.below(65536), "flags": 0x8400, "origin": None, "request_payload": 0, "pad": 0, "opt": None, "tsig": None,
+             "sections": [[], [{"name": hexl([b"big", b"example", b""]), "rdclass": 1, "rdtype": 65280, "covers": 0, "deleting": None, "ttl": 5,
+                                "rdatas": [{"k": "o", "b": (rng.bytes(16) * (nb // 16 + 1))[:nb].hex()}]}], [], []],
+             "max_size": rng.choice([0, 65535, 100000]), "prefer_truncation": rng.chance(1, 2)}
         run_one(ctx, c)
     for i in range(n(6)):
         c = gen_sized(rng, rng.choice([40, 300, 505, 511, 512, 513, 520, 560]), want_opt=rng.chance(1, 2), want_tsig=rng.chance(1, 3))
@@ -765,7 +846,41 @@ def generate(ctx: Ctx, scale: int, rng):
         run_one(ctx, c)
 
 
+def check_argument_errors(ctx):
+    """argument checks of the size/padding API"""
+    c = {"kind": "api"}
+    m = dns.message.Message(id=1)
+    for bad in (-1, -2):
+        try:
+            m.use_edns(0, pad=bad)
+            fail(ctx, "C08/use_edns/negative-pad-accepted", f"use_edns(pad={bad}) did not raise ValueError (pad is now {m.pad})", c)
+        except ValueError:
+            pass
+    m.use_edns(0, pad=0)
+    if m.pad != 0 or m.opt is None:
+        fail(ctx, "C08/use_edns/pad-zero", "use_edns(pad=0) must be accepted and mean no padding", c)
+    r = dns.renderer.Renderer(1, 0, 100)
+    for bad in (-1, -5):
+        try:
+            r.reserve(bad)
+            fail(ctx, "C08/renderer/reserve/negative-accepted", f"reserve({bad}) did not raise ValueError", c)
+        except ValueError:
+            pass
+    try:
+        r.reserve(100)   # all of it is allowed
+    except ValueError:
+        fail(ctx, "C08/renderer/reserve/whole-budget-refused", "reserve(max_size) raised ValueError", c)
+        r.reserved, r.max_size = 100, 0
+    try:
+        r.reserve(1)
+        fail(ctx, "C08/renderer/reserve/over-budget-accepted", "reserve(1) with nothing left did not raise ValueError", c)
+    except ValueError:
+        pass
+    ctx.count("api-errors")
+
+
 def run(ctx: Ctx):
+    check_argument_errors(ctx)
     for p in sorted(glob.glob(os.path.join(VERIF, "corpus", "C08", "*.json"))):
         c = json.load(open(p))
         ctx.case(("corpus", p), sample=None)
